@@ -18,7 +18,7 @@ HARNESS = os.environ.get("VERIF_HARNESS", os.path.join(VERIF, "harness"))
 EVIDENCE = os.environ.get("VERIF_EVIDENCE", os.path.join(VERIF, "evidence"))
 REPLAYS = os.environ.get("VERIF_REPLAYS", os.path.join(VERIF, "replays"))
 EXPLORE = os.path.join(HARNESS, "target/release/explore")
-SPEC = os.path.join(VERIF, "spec")
+SPEC = os.environ.get("VERIF_SPEC", os.path.join(VERIF, "spec"))
 TLA_CP = "/opt/veriftools/tla/tla2tools.jar:/opt/veriftools/tla/CommunityModules-deps.jar"
 NCPU = int(os.environ.get("VERIF_JOBS", "16"))
 
